@@ -124,3 +124,265 @@ def post_c01(obs, payload):
             if hit is not None and prod in exp and not rpt.printed_matches(exp[prod], hit[0]):
                 fails.append((f'report/adjusted/{prod}', f'report prints adjusted {prod} {hit[0]}, formula gives {exp[prod]!r}'))
     return {'fails': fails}
+
+
+# ----------------------------------------------------------------------------------------------------- C03
+def input_dict(payload):
+    from vf import families as F
+    if 'fam' in payload:
+        return F.override(F.fam_base(payload['fam']), payload.get('changes', {}))
+    d = {}
+    for l in payload.get('lines', []):
+        parts = [x.strip() for x in l.split(',')]
+        if len(parts) >= 2:
+            d[parts[0]] = parts[1]
+    return d
+
+
+def _f(inp, name):
+    v = inp.get(name)
+    return None if v is None else float(str(v).split()[0])
+
+
+def mon_c03(m, payload):
+    fails = []
+    ec, sp, wb, rs = m.economics, m.surfaceplant, m.wellbores, m.reserv
+    inp = input_dict(payload)
+    em, eu, cls = kind(m)
+    L = int(V(sp, 'plant_lifetime'))
+    nprod, ninj = float(V(wb, 'nprod')), float(V(wb, 'ninj'))
+    Cwell, Cstim, Cplant, Cgath, Cexpl = (float(V(ec, k)) for k in ('Cwell', 'Cstim', 'Cplant', 'Cgath', 'Cexpl'))
+    Cpiping, Cdh = float(V(ec, 'Cpiping')), float(V(ec, 'dhdistrictcost'))
+    CCap, Coam = float(V(ec, 'CCap')), float(V(ec, 'Coam'))
+    user_total = _f(inp, 'Total Capital Cost')
+    if user_total is not None:
+        base = user_total
+    else:
+        base = Cexpl + Cwell + Cstim + Cgath + Cplant + Cpiping + Cdh
+    itc_rate = _f(inp, 'Investment Tax Credit Rate')
+    ritc_val = float(V(ec, 'RITCValue'))
+    exp_itc = (itc_rate or 0.0) * base
+    if not mv.close(ritc_val, exp_itc, RT, 1e-12):
+        fails.append(('capex/itc_value', f'investment tax credit value {ritc_val!r}, expected rate*cost = {exp_itc!r}'))
+    fee, inc, grant = (_f(inp, k) or 0.0 for k in ('One-time Flat License Fees Etc', 'Other Incentives', 'One-time Grants Etc'))
+    exp_ccap = base - exp_itc + fee - inc - grant
+    if not mv.close(CCap, exp_ccap, RT, 1e-12):
+        fails.append(('capex/total' + ('/user_total' if user_total is not None else ''),
+                      f'total capital cost {CCap!r}, expected {exp_ccap!r} = base {base!r} - ITC {exp_itc!r} + fees {fee} - incentives {inc} - grants {grant}'))
+    # component overrides: exactly the user's figure
+    for pname, attr, cond in (('Reservoir Stimulation Capital Cost', 'Cstim', True),
+                              ('Surface Plant Capital Cost', 'Cplant', True),
+                              ('Field Gathering System Capital Cost', 'Cgath', True),
+                              ('Exploration Capital Cost', 'Cexpl', user_total is None)):
+        u = _f(inp, pname)
+        if u is not None and cond and not mv.close(float(V(ec, attr)), u, 1e-12, 0):
+            fails.append((f'override/{attr}', f'{pname} given as {u}, model uses {float(V(ec, attr))!r}'))
+    # wells
+    c_prod, c_inj = float(V(ec, 'cost_one_production_well')), float(V(ec, 'cost_one_injection_well'))
+    lateral = float(V(ec, 'cost_lateral_section')) if mv.has(ec, 'cost_lateral_section') else 0.0
+    u_prod, u_inj = _f(inp, 'Well Drilling and Completion Capital Cost'), _f(inp, 'Injection Well Drilling and Completion Capital Cost')
+    if u_prod is not None:
+        e_prod, e_inj = u_prod, (u_inj if u_inj is not None else u_prod)
+        if not mv.close(c_prod, e_prod, 1e-12, 0) or not mv.close(c_inj, e_inj, 1e-12, 0):
+            fails.append(('override/per_well', f'per-well costs given ({u_prod}, {u_inj}); model uses ({c_prod!r}, {c_inj!r})'))
+        exp_cwell = e_prod * nprod + e_inj * ninj
+        if not mv.close(Cwell, exp_cwell, RT, 1e-12):
+            fails.append(('wells/user_fixed_sum', f'wellfield cost {Cwell!r}, expected per-well costs x wells = {exp_cwell!r}'))
+    else:
+        ci = c_inj if ninj > 0 else 0.0
+        exp_cwell = 1.05 * (c_prod * nprod + ci * ninj + lateral)
+        if not mv.close(Cwell, exp_cwell, RT, 1e-12):
+            fails.append(('wells/correlated_sum', f'wellfield cost {Cwell!r}, expected 1.05*(per-well x wells + laterals) = {exp_cwell!r}'))
+        # per-well cost against own copy of the published curves
+        corr = int(_f(inp, 'Well Drilling Cost Correlation') or 10)
+        per_m = _f(inp, 'All-in Vertical Drilling Costs') or 1000.0
+        adj_p = _f(inp, 'Well Drilling and Completion Capital Cost Adjustment Factor')
+        adj_i = _f(inp, 'Injection Well Drilling and Completion Capital Cost Adjustment Factor')
+        if adj_i is None:
+            adj_i = adj_p if adj_p is not None else 1.0
+        if adj_p is None:
+            adj_p = 1.0
+        depth_m = float(rs.depth.quantity().to('m').magnitude)
+        e_prod = R.well_cost_MUSD(corr, depth_m, per_m, adj_p)
+        if not mv.close(c_prod, e_prod, RT, 1e-12):
+            fails.append((f'wells/curve/{corr}/production', f'production well cost {c_prod!r}, curve {corr} at {depth_m} m x {adj_p} gives {e_prod!r}'))
+        if ninj > 0 and 'Injection Reservoir Depth' not in inp:
+            e_inj = R.well_cost_MUSD(corr, depth_m, per_m, adj_i)
+            if not mv.close(c_inj, e_inj, RT, 1e-12):
+                fails.append((f'wells/curve/{corr}/injection', f'injection well cost {c_inj!r}, curve {corr} at {depth_m} m x {adj_i} gives {e_inj!r}'))
+    # O&M
+    u_oam = _f(inp, 'Total O&M Cost')
+    if u_oam is not None:
+        obase = u_oam
+    else:
+        obase = (float(V(ec, 'Coamwell')) + float(V(ec, 'Coamplant')) + float(V(ec, 'Coamwater')) + float(V(ec, 'chilleropex'))
+                 + float(V(ec, 'dhdistrictoandmcost')))
+        for pname, attr in (('Wellfield O&M Cost', 'Coamwell'), ('Surface Plant O&M Cost', 'Coamplant'), ('Water Cost', 'Coamwater')):
+            u = _f(inp, pname)
+            if u is not None and not mv.close(float(V(ec, attr)), u, 1e-12, 0):
+                fails.append((f'override/{attr}', f'{pname} given as {u}, model uses {float(V(ec, attr))!r}'))
+    redrill = int(V(wb, 'redrill'))
+    afee, relief = (_f(inp, k) or 0.0 for k in ('Annual License Fees Etc', 'Tax Relief Per Year'))
+    exp_coam = obase + (Cwell + Cstim) * redrill / L + afee - relief
+    if not mv.close(Coam, exp_coam, RT, 1e-12):
+        fails.append(('opex/total' + ('/user_total' if u_oam is not None else ''),
+                      f'total O&M {Coam!r}, expected {exp_coam!r} = base {obase!r} + redrilling {(Cwell + Cstim) * redrill / L!r} + fees {afee} - relief {relief}'))
+    state = [em, eu, cls, sorted(k for k in inp if 'Cost' in k or 'Fees' in k or 'Grant' in k or 'Incentive' in k or 'Credit' in k),
+             round(CCap, 9), round(Coam, 9), redrill]
+    nontrivial = CCap != 0 and Coam != 0
+    return {'fails': fails, 'state': state, 'nontrivial': nontrivial,
+            'sample': {'family': payload.get('fam'), 'changes': payload.get('changes'), 'CCap': CCap, 'Coam': Coam}}
+
+
+# ----------------------------------------------------------------------------------------------------- C04
+def _metrics_consistent(fails, prefix, cf, cum, rate_pct, excel, npv_r, irr_pct, vir, moic, capex, opex, L, payback=None):
+    scale = max(1.0, max(abs(x) for x in cf))
+    e_npv = R.npv(rate_pct / 100.0, cf, excel)
+    if not mv.close(npv_r, e_npv, 1e-9, 1e-9 * scale):
+        fails.append((f'{prefix}/npv', f'reported NPV {npv_r!r}; series discounted at {rate_pct}% gives {e_npv!r}'))
+    if irr_pct != 0 and math.isfinite(irr_pct):
+        try:
+            resid = R.npv(irr_pct / 100.0, cf, False)
+        except (ZeroDivisionError, OverflowError):
+            resid = math.inf
+        if not abs(resid) < 1e-6 * scale * len(cf):
+            fails.append((f'{prefix}/irr', f'reported IRR {irr_pct!r} % does not zero the NPV of the reported series (residual {resid!r})'))
+    if vir is not None:
+        e_vir = 1.0 + e_npv / capex if capex != 0 else math.nan
+        if capex != 0 and not mv.close(vir, e_vir, 1e-9, 1e-9):
+            fails.append((f'{prefix}/vir', f'reported VIR {vir!r}, expected 1 + NPV/CAPEX = {e_vir!r}'))
+    if moic is not None and (capex + opex * L) != 0:
+        e_moic = cum[-1] / (capex + opex * L)
+        if not mv.close(moic, e_moic, 1e-9, 1e-9):
+            fails.append((f'{prefix}/moic', f'reported MOIC {moic!r}, expected {e_moic!r}'))
+    if payback is not None:
+        crossings = [j for j in range(1, len(cum)) if cum[j - 1] <= 0 < cum[j]]
+        if payback > 0:
+            if not any(j - 1e-9 <= payback <= j + 1 + 1e-9 for j in crossings):
+                fails.append((f'{prefix}/payback', f'reported payback {payback!r} is not within a year where cumulative cash flow turns positive (crossing years {crossings})'))
+        elif crossings:
+            fails.append((f'{prefix}/payback_missing', f'cumulative cash flow turns positive in year(s) {crossings} but no payback period is reported'))
+    return e_npv
+
+
+def mon_c04(m, payload):
+    fails = []
+    ec, sp = m.economics, m.surfaceplant
+    em, eu, cls = kind(m)
+    L = int(V(sp, 'plant_lifetime'))
+    cy = int(V(sp, 'construction_years'))
+    T = cy + L
+    CCap, Coam = float(V(ec, 'CCap')), float(V(ec, 'Coam'))
+    cf = [float(x) for x in V(ec, 'TotalRevenue')]
+    cum = [float(x) for x in V(ec, 'TotalCummRevenue')]
+    if len(cf) != T or len(cum) != T:
+        fails.append(('cashflow/length', f'cash-flow series have {len(cf)}/{len(cum)} entries, expected construction+lifetime = {T}'))
+        return {'fails': fails, 'state': ['len'], 'nontrivial': False}
+    prices = {k: [float(x) for x in V(ec, k)] for k in ('ElecPrice', 'HeatPrice', 'CoolingPrice', 'CarbonPrice')}
+    for k, p in prices.items():
+        if len(p) != T:
+            fails.append((f'price/length/{k}', f'{k} has {len(p)} entries, expected {T}'))
+            return {'fails': fails, 'state': ['len'], 'nontrivial': False}
+    net = A(sp, 'NetkWhProduced')
+    heat = A(sp, 'HeatkWhProduced')
+    cool = A(sp, 'cooling_kWh_Produced') if mv.has(sp, 'cooling_kWh_Produced') else np.zeros(L)
+    sold = []
+    if eu == 1:
+        sold = [('ElecRevenue', net, 'ElecPrice')]
+    elif eu == 2 and cls == 'SurfacePlantAbsorptionChiller':
+        sold = [('CoolingRevenue', cool, 'CoolingPrice')]
+    elif eu == 2:
+        sold = [('HeatRevenue', heat, 'HeatPrice')]
+    else:
+        sold = [('ElecRevenue', net, 'ElecPrice'), ('HeatRevenue', heat, 'HeatPrice')]
+    exp = [0.0] * T
+    for y in range(cy):
+        exp[y] = -CCap / cy
+    for name, E, pk in sold:
+        rev = [float(x) for x in V(ec, name)]
+        for y in range(T):
+            e = 0.0 if y < cy else float(E[y - cy]) * prices[pk][y] / 1e6
+            if not mv.close(rev[y], e, 1e-9, 1e-12):
+                fails.append((f'revenue/{name}', f'{name}[{y}] = {rev[y]!r}, expected energy x price = {e!r}'))
+                break
+            if y >= cy:
+                exp[y] += e
+    carbon_on = bool(V(ec, 'DoCarbonCalculations'))
+    if carbon_on:
+        gi, ni = float(V(ec, 'GridCO2Intensity')), float(V(ec, 'NaturalGasCO2Intensity'))
+        crev = [float(x) for x in V(ec, 'CarbonRevenue')]
+        for y in range(cy, T):
+            el = float(net[y - cy]) if eu != 2 else 0.0
+            ht = float(heat[y - cy]) if eu != 1 else 0.0
+            e = (el * gi + ht * ni) * prices['CarbonPrice'][y] / 1e6
+            if not mv.close(crev[y], e, 1e-9, 1e-12):
+                fails.append(('revenue/carbon', f'CarbonRevenue[{y}] = {crev[y]!r}, expected {e!r}'))
+                break
+            exp[y] += e
+    for y in range(cy, T):
+        exp[y] -= Coam
+    i = mv.first_mismatch(cf, exp, 1e-9, 1e-9)
+    if i is not None:
+        where = 'construction' if i < cy else 'operation'
+        fails.append((f'cashflow/{where}', f'cash flow year {i}: reported {cf[i]!r}, expected {exp[i]!r} (cy={cy}, L={L})'))
+    i = mv.first_mismatch(cum, R.running_sum(cf), 1e-9, 1e-9)
+    if i is not None:
+        fails.append(('cashflow/cumulative', f'cumulative year {i}: reported {cum[i]!r}, running sum {R.running_sum(cf)[i]!r}'))
+    rate = float(V(ec, 'FixedInternalRate'))
+    excel = bool(V(ec, 'discount_initial_year_cashflow'))
+    pb = float(V(ec, 'ProjectPaybackPeriod'))
+    _metrics_consistent(fails, 'project', cf, cum, rate, excel, float(V(ec, 'ProjectNPV')), float(V(ec, 'ProjectIRR')),
+                        float(V(ec, 'ProjectVIR')), float(V(ec, 'ProjectMOIC')), CCap, Coam, L, pb)
+    crossing = any(cum[j - 1] <= 0 < cum[j] for j in range(1, T))
+    addon = bool(V(ec, 'DoAddOnCalculations')) and getattr(m, 'addeconomics', None) is not None
+    if addon:
+        ae = m.addeconomics
+        acap = float(V(ae, 'AddOnCAPEXTotal'))
+        aopex = float(V(ae, 'AddOnOPEXTotalPerYear'))
+        ael, aht, aprofit = (float(V(ae, k)) for k in ('AddOnElecGainedTotalPerYear', 'AddOnHeatGainedTotalPerYear', 'AddOnProfitGainedTotalPerYear'))
+        pcf = [float(x) for x in V(ae, 'ProjectCashFlow')]
+        pcum = [float(x) for x in V(ae, 'ProjectCummCashFlow')]
+        if len(pcf) != T:
+            fails.append(('addon/length', f'add-on project cash flow has {len(pcf)} entries, expected {T}'))
+        else:
+            pexp = [0.0] * T
+            for y in range(cy):
+                pexp[y] = -(CCap + acap) / cy
+            for y in range(cy, T):
+                k = y - cy
+                a_el = ael if eu != 2 else 0.0
+                a_ht = aht if eu != 1 else 0.0
+                p_el = float(net[k]) if eu != 2 else 0.0
+                p_ht = float(heat[k]) if eu != 1 else 0.0
+                arev = a_el * prices['ElecPrice'][y] / 1e6 + a_ht * prices['HeatPrice'][y] / 1e6 + aprofit - aopex
+                pexp[y] = arev + (p_el * prices['ElecPrice'][y] + p_ht * prices['HeatPrice'][y]) / 1e6 - Coam
+            i = mv.first_mismatch(pcf, pexp, 1e-9, 1e-9)
+            if i is not None:
+                fails.append(('addon/cashflow', f'project-with-add-ons cash flow year {i}: reported {pcf[i]!r}, expected {pexp[i]!r}'))
+            i = mv.first_mismatch(pcum, R.running_sum(pcf), 1e-9, 1e-9)
+            if i is not None:
+                fails.append(('addon/cumulative', f'add-on cumulative year {i}: {pcum[i]!r} vs running sum {R.running_sum(pcf)[i]!r}'))
+            _metrics_consistent(fails, 'addon', pcf, pcum, float(V(ae, 'FixedInternalRate')), bool(V(ae, 'discount_initial_year_cashflow')),
+                                float(V(ae, 'ProjectNPV')), float(V(ae, 'ProjectIRR')), float(V(ae, 'ProjectVIR')),
+                                float(V(ae, 'ProjectMOIC')), CCap + acap, Coam + aopex, L, None)
+    state = [em, eu, cls, cy, L, excel, carbon_on, addon, [round(x, 9) for x in cf[:cy + 2]], round(pb, 9)]
+    return {'fails': fails, 'state': state, 'nontrivial': bool(np.ptp(cf[cy:]) > 1e-12) if L > 1 else True,
+            'crossing': crossing, 'pb': pb,
+            'counters': {'payback_crossing': int(crossing), 'irr_nonzero': int(float(V(ec, 'ProjectIRR')) != 0)},
+            'sample': {'family': payload.get('fam'), 'changes': payload.get('changes'), 'cashflow': cf[:cy + 2], 'payback': pb}}
+
+
+def post_c04(obs, payload):
+    from vf.core import rpt
+    fails = []
+    h = obs.get('hook') or {}
+    hit = rpt.find_line(obs.get('report', ''), 'Project Payback Period')
+    if hit is None:
+        fails.append(('report/payback/missing', 'report has no "Project Payback Period" line'))
+    else:
+        shown_na = hit[0].upper() == 'N/A'
+        if shown_na and h.get('crossing'):
+            fails.append(('report/payback/na_but_pays_back', 'report shows N/A although cumulative cash flow turns positive'))
+        if (not shown_na) and not h.get('crossing'):
+            fails.append(('report/payback/shown_but_never_positive', f'report shows payback {hit[0]} although cumulative cash flow never turns positive'))
+    return {'fails': fails}
